@@ -53,6 +53,12 @@ def mapInsert {α : Type} (k : Str) (v : α) : List (Str × α) → List (Str ×
 def mapOfList {α : Type} (kvs : List (Str × α)) : List (Str × α) :=
   kvs.foldl (fun m kv => mapInsert kv.1 kv.2 m) []
 
+/-- eval.rs, the dict-literal arm of `evaluate`: the entries are evaluated left to right and put into
+a `HashMap` with `acc.insert(key, value)`, so a later entry with an equal key replaces the earlier
+one (the HashMap is modelled as the key-sorted association list, as everywhere) -/
+def dictLiteral {α : Type} (entries : List (Str × α)) : List (Str × α) :=
+  entries.foldl (fun acc kv => mapInsert kv.1 kv.2 acc) []
+
 mutual
 /-- the `Value` as serde_json holds it: every object sorted by key, duplicates resolved -/
 def canonJ : JV → JV
